@@ -15,6 +15,8 @@ macro_rules! registry {
             "C34" => dispatch!($action, props::c34::C34, $ctx, $path),
             "C03" => dispatch!($action, props::c03::C03, $ctx, $path),
             "C21" => dispatch!($action, props::c21::C21, $ctx, $path),
+            "C02" => dispatch!($action, props::c02::C02, $ctx, $path),
+            "C04" => dispatch!($action, props::c04::C04, $ctx, $path),
             _ => {
                 eprintln!("unknown property {}", $id);
                 2
